@@ -70,6 +70,10 @@ pub struct CoinWorld {
     pub by_outpoint: BTreeMap<([u8; 32], u32), u32>,
     pub next_coin: u32,
     pub next_tx: u32,
+    /// outpoints of EPHEMERAL outputs (ZIP 320) the wallet created for itself: rows of the coin table that are not coins
+    /// of the coin ledger (the wallet keeps them out of its balances and out of input selection); they are projected
+    /// separately (`eph`) and exempt from the comparison with Coins.tla. Empty unless the multi-step driver (C08) fills it.
+    pub ephemeral: std::collections::BTreeSet<([u8; 32], u32)>,
 }
 
 /// ids of transactions shared with the harness chain (wallet-created transactions that also spend coins)
@@ -131,6 +135,7 @@ impl CoinWorld {
             by_outpoint: BTreeMap::new(),
             next_coin: 1,
             next_tx: 1,
+            ephemeral: Default::default(),
         }
     }
 
@@ -309,8 +314,24 @@ impl CoinWorld {
             .map(|r| r.unwrap())
             .collect();
         let mut out_rows = vec![];
+        let mut eph_rows = vec![];
         for (id, txid, index, value, acct_row, mined, minobs, exp) in rows {
             let a: [u8; 32] = txid.clone().try_into().unwrap();
+            if self.ephemeral.contains(&(a, index)) {
+                // an ephemeral output of a ZIP 320 pair: not a coin of the ledger (information only: who spends it)
+                let sp: Vec<i64> = conn
+                    .prepare(
+                        "SELECT st.txid FROM transparent_received_output_spends s JOIN transactions st ON st.id_tx = s.transaction_id
+                         WHERE s.transparent_received_output_id = ?1",
+                    )
+                    .unwrap()
+                    .query_map([id], |r| r.get::<_, Vec<u8>>(0))
+                    .unwrap()
+                    .map(|r| tx_uid(&r.unwrap()))
+                    .collect();
+                eph_rows.push(json!({"t": tx_uid(&txid), "n": index, "v": value, "mined": rel(mined), "sp": sp}));
+                continue;
+            }
             let c = self.by_outpoint.get(&(a, index)).map(|c| *c as i64).unwrap_or(-1);
             let mut sp: Vec<(i64, i64, i64, i64)> = conn
                 .prepare(
@@ -404,6 +425,10 @@ impl CoinWorld {
             .collect();
         let balp = bals.iter().all(|b| b.is_some());
         let bal: Vec<Value> = bals.into_iter().map(|b| b.unwrap_or(json!([0, 0, 0, 0]))).collect();
-        json!({"chk": true, "rows": out_rows, "smap": smap, "balp": balp, "bal": bal, "locks": {"rows": lock_rows, "api": lock_api}})
+        let mut p = json!({"chk": true, "rows": out_rows, "smap": smap, "balp": balp, "bal": bal, "locks": {"rows": lock_rows, "api": lock_api}});
+        if !self.ephemeral.is_empty() {
+            p["eph"] = json!(eph_rows);
+        }
+        p
     }
 }
